@@ -896,6 +896,15 @@ func c01walk(c *Ctx) {
 				cover = false
 			}
 		}
+		if len(role) == 0 && nReplay == 2 && len(clears) >= 1 {
+			// The figures are not kept in parallel maps that the replay reads back with a lookup per argument (for
+			// instance one map of structs). The per-role clauses above are written for the parallel-map shape; for
+			// another container they are not decided (claimed less, not approximated): what remains decided is that
+			// both replay calls and the clear are there, and - by the PATH(replay) rule - that the replay is
+			// unconditional.
+			r.OK("TABLE", fkey(fn)+"/saved/wiring", c.Pos(fn.Pos()), "save/replay does not use four parallel maps: per-role wiring NOT decided for this shape; two replay calls and the clear are present")
+			return
+		}
 		r.Check(names && nReplay == 2 && len(role) == 4 && cover && len(clears) >= 1, "TABLE", fkey(fn)+"/saved/wiring", c.Pos(fn.Pos()), "four saved maps, each replayed into its own argument under the name it is looked up with; leaf and parent groups both saved",
 			sprintf("the save/replay wiring is broken: replay lookups use the replayed name and one role per map=%v, replay calls=%d, saved maps=%d, every role saved for leaf and parent groups=%v, clear calls=%d", names, nReplay, len(role), cover, len(clears)))
 		r.Floor("TABLE", "saves in rebuildAllGroupQuotaNoLock", nSave, 8)
